@@ -10,7 +10,9 @@ RULE = ("a merchant configuration with known discrete logs; agreed (channel id, 
         "close state) pair that breaks one of the nine statement relations (and some combinations, e.g. (cb+d, mb-d)), "
         "strategies (a) honest algorithm on the hidden messages, (c) independent commitment scalar so that exactly one "
         "relation fails, (d) post-challenge choice - draft, read the verifier's challenge through the hook, solve the "
-        "revealed commitment scalars (k := r - c*v) or the scalar commitments T, resubmit. Non-trivial = every forged "
+        "revealed commitment scalars (k := r - c*v) or the scalar commitments T, resubmit, (e) compensating errors: "
+        "responses for the agreed values, with errors in the two commitments (or scalar commitments) that cancel in the sum / "
+        "difference of the two Schnorr relations. Non-trivial = every forged "
         "proof and every honest run; distinct = distinct input digest.")
 TRUSTED = ["theorems C01_* over an arbitrary field and an arbitrary hash; correspondence ops: req_new, m_init, m_activate, "
            "req_complete, inactive_activate, sig_verify; the verifier's challenge is read through the verif-hooks recorder"]
@@ -39,6 +41,7 @@ def run(run, h):
         ctx = rng.randbytes(rng.choice([0, 5, 40]))
         honest_case(run, h, pts, batch, rng, M, cid, cb, mb, ctx)
         forger_family(run, h, pts, batch, rng, M, cid, cb, mb, ctx)
+        compensating_family(run, h, pts, batch, rng, M, cid, cb, mb, ctx)
     batch.flush()
 
 
@@ -190,6 +193,54 @@ def forger_family(run, h, pts, batch, rng, M, cid, cb, mb, ctx):
             if run.tier == "quick" and strat in ("a_honest_algorithm", "d_solve_T") and rng.random() < 0.6:
                 continue
             attempt(run, h, pts, batch, rng, M, cid, cb, mb, ctx, agreed, name, ms, mc, strat)
+
+
+def compensating_family(run, h, pts, batch, rng, M, cid, cb, mb, ctx):
+    """strategy (e): transcripts and responses for the AGREED values, so that every response-scalar equation holds, but
+    the two commitments (or the two scalar commitments) carry errors that cancel in a linear combination of the two
+    Schnorr relations (weights (1,1) or (1,-1)): each sub-proof alone proves a false statement.  A verifier that checks
+    the two relations together instead of each (a 'batched' verification without independent random weights) accepts."""
+    pk = M.pk
+    agreed = (cid_scalar(cid), cb, mb)
+    nonce, lock = rand_nz(rng), rand_nz(rng)
+    ms = [agreed[0], nonce, lock, cb % Q, mb % Q]
+    mc = [agreed[0], CLOSE, lock, cb % Q, mb % Q]
+    for slot in ((3,) if run.tier == "quick" else (0, 2, 3, 4)):
+        for kind in ("C_opposite", "C_same", "T_opposite", "T_same"):
+            delta = rng.choice([1, 990, rand_nz(rng)])
+            E = pk["y1s"][slot] * delta % Q
+            sgn = 1 if kind.endswith("same") else -1
+            rnd = {"bf_s": rand_nz(rng), "kbf_s": rand_nz(rng), "ks": [rand_nz(rng) for _ in range(5)],
+                   "bf_c": rand_nz(rng), "kbf_c": rand_nz(rng), "kc": [rand_nz(rng) for _ in range(5)]}
+
+            def shifted(c):
+                p = build(M, ms, mc, rnd, c)
+                f = kind[0]
+                p["sp"][f] = (p["sp"][f] + sgn * E) % Q
+                p["csp"][f] = (p["csp"][f] + E) % Q
+                return p
+            h.begin()
+            r0 = merchant_init(h, M, cid, cb, mb, wire(pts, shifted(1)), ctx, u=rand_nz(rng))
+            final = shifted(r0["chal"]["c"])
+            r1 = merchant_init(h, M, cid, cb, mb, wire(pts, final), ctx, u=rand_nz(rng))
+            hs, hc = list(ms), list(mc)
+            if kind[0] == "C":
+                hs[slot] = (hs[slot] + sgn * delta) % Q
+                hc[slot] = (hc[slot] + delta) % Q
+            case = {"op": "forgery", "variant": "slot%d" % slot, "strategy": "e_compensating_" + kind, "cid": cid.hex(), "cb": cb,
+                    "mb": mb, "ctx": ctx.hex(), "hidden_state": hs, "hidden_close": hc, "bf_state": rnd["bf_s"],
+                    "bf_close": rnd["bf_c"], "accepted": r1["ok"], "script": h.end()}
+            run.case(case)
+            run.count("forger e_compensating_errors")
+            if r1["ok"] and kind[0] == "C":
+                sg = h.call("bsig_unblind", r1["closing"], sc(rnd["bf_c"]))
+                case["closing_signature_valid_on_hidden_close_state"] = h.call("sig_verify", 5, M.key["pk_hex"], scs(hc), sg[1])[0] == "1"
+            run.check_monitor("false_statement_rejected", not r1["ok"], case)
+
+            def cmp(r, case=case, ok=r1["ok"]):
+                run.check_corr("corr.C01.establish_verify", bool(r[0]) == ok, dict(case, model=r[0]))
+            batch.add("r_establish_verify %s %s %s %s %s %s" % (coq_pk(pk), zlit(agreed[0]), zlit(cb), zlit(mb), coq_eproof_args(final),
+                                                                zlit(r1["chal"]["c"])), cmp)
 
 
 def attempt(run, h, pts, batch, rng, M, cid, cb, mb, ctx, agreed, vname, ms, mc, strat):
